@@ -111,6 +111,9 @@ def run_enum(ctx):
     ctx.note("enum_patterns", sorted(patterns))
 
 
+_nconvert = [0]
+
+
 def convert(text, lang):
     """Run the real converter on a temporary file holding `text`."""
     from decaylanguage.modeling.ampgen2goofit import ampgen2goofit, ampgen2goofitpy  # noqa: PLC0415
@@ -120,6 +123,17 @@ def convert(text, lang):
         f = os.path.join(d, "model.txt")
         with open(f, "w", encoding="utf-8", newline="") as fh:
             fh.write(text)
+        _nconvert[0] += 1
+        if _nconvert[0] % 4 == 1:
+            # history: an option file that the grammar refuses half-way down (a missing brace, after complete amplitude / parameter / constant lines), or
+            # one that names an unknown resonance, was handed to one of the converters just before
+            bad = os.path.join(d, "typo.txt")
+            with open(bad, "w", encoding="utf-8") as fh:
+                fh.write(A.POISON_TEXTS[(_nconvert[0] // 4) % 2])
+            try:
+                (ampgen2goofit if (_nconvert[0] // 8) % 2 else ampgen2goofitpy)(bad, ret_output=True)
+            except Exception:  # noqa: BLE001, S110   what it raises is not judged
+                pass
         return (ampgen2goofit if lang == "cpp" else ampgen2goofitpy)(f, ret_output=True)
     finally:
         shutil.rmtree(d, ignore_errors=True)
